@@ -79,6 +79,18 @@ def model_valid(s, alpha):
     return None
 
 
+class PrintsShort(uuid.UUID):
+    """a uuid class of the application that shows itself in the short form"""
+
+    def __str__(self):
+        return short_uuid.uuid_to_short_str(self)
+
+
+class PrintsTagged(uuid.UUID):
+    def __str__(self):
+        return "<uuid %s>" % self.hex
+
+
 def check_int(ctx, n, alpha, seen, klass):
     case = {"kind": "int", "value": str(n), "class": klass}
     u = uuid.UUID(int=n)
@@ -104,6 +116,19 @@ def check_int(ctx, n, alpha, seen, klass):
         if back != u:
             ctx.violation("roundtrip", [fname, str(back)], case)
     ctx.count("roundtrips")
+    if n % 4 == 1:
+        # the application's own uuid classes: they print themselves in their own way (the short form, a tagged form)
+        for cls in (PrintsShort, PrintsTagged):
+            try:
+                s2 = short_uuid.uuid_to_short_str(cls(int=n))
+            except BaseException as err:
+                if not isinstance(err, Exception) and not isinstance(err, RecursionError):
+                    raise
+                ctx.violation("encode-raises", [cls.__name__, type(err).__name__, str(err)[:80]], case)
+                continue
+            ctx.count("uuid_subclass_objects_encoded")
+            if s2 != s:
+                ctx.violation("encoding-differs-from-model", [cls.__name__, s2, s], case)
     # canonical forms
     canon = str(u)
     forms = [canon, canon.upper(), "{" + canon + "}", "urn:uuid:" + canon, u.hex]
@@ -130,8 +155,18 @@ def check_string(ctx, s, alpha, klass):
         if fname == "uuid_from_short_str" and not (len(s) == 22 and all(c in alpha for c in s)):
             exp = None  # canonical forms are not short strings
         try:
-            got = getattr(short_uuid, fname)(s)
+            if len(s) % 2:
+                # the caller is in the middle of handling an error of its own (a fallback path)
+                try:
+                    raise ZeroDivisionError("the caller's own trouble")
+                except ZeroDivisionError:
+                    got = getattr(short_uuid, fname)(s)
+                ctx.count("strings_judged_while_the_caller_handles_another_error")
+            else:
+                got = getattr(short_uuid, fname)(s)
         except ValueError:
+            if len(s) % 2:
+                ctx.count("strings_judged_while_the_caller_handles_another_error")
             if exp is not None:
                 ctx.violation("valid-string-rejected", [fname, s], case)
             else:
